@@ -270,6 +270,16 @@ func TestVerif_C19(t *testing.T) {
 	r := vmc.New("C19", "model_checking")
 	r.Rule = "BFS over histories of the real ManageRoute (add / re-add with another metric / remove over three networks) per static exit configuration; in every reached state every probe destination is opened through the real processFrame and the dial seam records connections; non-trivial = distinct (configuration, probe) pairs that were permitted; outcomes = distinct (probe, permitted, dialed)"
 	r.Assume("name resolution is replaced by a pre-seeded resolver cache (no DNS in the sandbox); outbound TCP goes through the vnet dial seam substituted for net.Dialer in exit/handler.go")
+	var srp c19SchedReplay
+	if r.ReplayInto(&srp) && srp.Sched {
+		c19SchedRun(r, srp.Adders, vmc.NewReplayChooser(srp.Choices))
+		r.Add("states", 1)
+		r.Add("transitions", 1)
+		if err := r.Finish(); err != nil {
+			t.Fatal(err)
+		}
+		return
+	}
 	var rp c19Replay
 	if r.ReplayInto(&rp) {
 		for _, c := range c19Configs {
@@ -283,6 +293,7 @@ func TestVerif_C19(t *testing.T) {
 		}
 		return
 	}
+	c19Sched(r)
 	depth := vmc.Pick(r, 3, 4)
 	for _, c := range c19Configs {
 		c := c
